@@ -151,6 +151,9 @@ def fault_sites(deck):
                 sites.append(('fill-array:long-by-multiply', ci))
                 sites.append(('fill-array:long-by-interpolate', ci))
                 sites.append(('fill-array:long-signed-entry', ci))
+                # (a bare R or I stands for 1R, 1I)
+                sites.append(('fill-array:long-by-bare-repeat', ci))
+                sites.append(('fill-array:long-by-bare-interpolate', ci))
     for ti, t in enumerate(deck['transforms']):
         if t['id'] in used_tr and t['spec']['full'] is not None:
             for how in sorted(used_tr[t['id']]):
@@ -286,6 +289,10 @@ def inject(deck, fclass, site):
         toks = [str(u) for u in c['fill']['univs']]
         if fclass.endswith('short'):
             toks = toks[:-1]
+        elif fclass.endswith('by-bare-repeat'):
+            toks = toks + ['r']
+        elif fclass.endswith('by-bare-interpolate'):
+            toks = toks + ['i', str(int(toks[-1]) + 2)]
         elif fclass.endswith('by-repeat'):
             toks = toks + ['1r']
         elif fclass.endswith('by-multiply'):
